@@ -272,12 +272,13 @@ func checkC08(w *World, r *Report) {
 	}
 	for _, flag := range []bool{true, false} {
 		flag := flag
-		live := ReachUnder(send, func(base ssa.Value) (bool, bool) {
+		assume := func(base ssa.Value) (bool, bool) {
 			if base == ssa.Value(restartP) {
 				return flag, true
 			}
 			return false, false
-		})
+		}
+		live := ReachUnder(send, assume)
 		ncalls := 0
 		for _, s := range nvaCalls {
 			if !live.LiveInstr(s.Instr) {
@@ -285,17 +286,18 @@ func checkC08(w *World, r *Report) {
 			}
 			ncalls++
 			a := s.Common().Args
-			les, ves := live.LiveValues(a[idxOf(nva, lockEndP)]), live.LiveValues(a[idxOf(nva, vestEndP)])
+			// the two ends may be computed by a helper that is handed the restart flag: its live results
+			les, ves := w.LiveValuesDeep(send, assume, a[idxOf(nva, lockEndP)], 2), w.LiveValuesDeep(send, assume, a[idxOf(nva, vestEndP)], 2)
 			if flag {
 				ok := len(les) > 0 && len(ves) > 0
 				var ol, ov *Origin
 				for _, le := range les {
-					ol = tr.Origins(le)
+					ol = le.Origins(tr)
 					ok = ok && ol.HasCall("types.Context.BlockTime") && ol.HasPath("VestingType.LockupPeriod") && !ol.HasPath("VestingType.VestingPeriod") && !ol.HasPath("VestingPool.LockEnd") &&
 						ol.HasOp("time.Time.Add") && !ol.HasOp("time.Time.Sub")
 				}
 				for _, ve := range ves {
-					ov = tr.Origins(ve)
+					ov = ve.Origins(tr)
 					ok = ok && ov.HasCall("types.Context.BlockTime") && ov.HasPath("VestingType.LockupPeriod") && ov.HasPath("VestingType.VestingPeriod") && !ov.HasPath("VestingPool.LockEnd") &&
 						ov.HasOp("time.Time.Add") && !ov.HasOp("time.Time.Sub")
 				}
@@ -334,8 +336,8 @@ func checkC08(w *World, r *Report) {
 				r.Check(okVT, "C08.schedule", "restart: periods come from the vesting type of the debited pool", w.Pos(s.Instr.Pos()), "GetVestingType(pool.VestingType) of the pool whose Sent grows", "the periods are not read from the vesting type of the pool the coins come from")
 			} else {
 				ok := len(les) > 0 && len(ves) > 0
-				for _, v := range append(append([]ssa.Value{}, les...), ves...) {
-					ok = ok && loadOfField(v, "LockEnd", func(b ssa.Value) bool { return sentBase == nil || b == sentBase })
+				for _, v := range append(append([]DeepVal{}, les...), ves...) {
+					ok = ok && loadOfField(v.Root, "LockEnd", func(b ssa.Value) bool { return sentBase == nil || b == sentBase })
 				}
 				r.Check(ok, "C08.schedule", "no restart: start and end are the pool's LockEnd", w.Pos(s.Instr.Pos()), "both arguments load LockEnd of the debited pool", "without restart the schedule is not (LockEnd, LockEnd) of the debited pool")
 			}
